@@ -53,19 +53,19 @@ type Monitors struct {
 	primary    map[string]bool
 
 	// zk-derived truth
-	lockOwner   string // incarnation owning /test/manager ("" = none)
-	lockSess    int64
-	lockChanges int
-	lockSince   time.Duration
-	master      string
-	active      []string
-	activeSet   bool
-	switchRaw   string
-	maintRaw    string
+	lockOwner     string // incarnation owning /test/manager ("" = none)
+	lockSess      int64
+	lockChanges   int
+	lockSince     time.Duration
+	master        string
+	active        []string
+	activeSet     bool
+	switchRaw     string
+	maintRaw      string
 	recoverySince map[string]time.Duration // when the present mark of a host appeared
-	recovery    map[string]bool
-	sessInc     map[int64]string
-	sessAlive   map[int64]bool
+	recovery      map[string]bool
+	sessInc       map[int64]string
+	sessAlive     map[int64]bool
 
 	iters   map[string]*iterRec // current open iteration per incarnation
 	allIter []*iterRec
